@@ -423,15 +423,22 @@ class set:
             self.config = config
             self._record = []
 
-            if arg is not None:
-                for key, value in arg.items():
-                    key = check_deprecations(key)
-                    self._assign(key.split("."), value, config)
-            if kwargs:
-                for key, value in kwargs.items():
-                    key = key.replace("__", ".")
-                    key = check_deprecations(key)
-                    self._assign(key.split("."), value, config)
+            try:
+                if arg is not None:
+                    for key, value in arg.items():
+                        key = check_deprecations(key)
+                        self._assign(key.split("."), value, config)
+                if kwargs:
+                    for key, value in kwargs.items():
+                        key = key.replace("__", ".")
+                        key = check_deprecations(key)
+                        self._assign(key.split("."), value, config)
+            except BaseException:
+                # undo the assignments made so far: a failing ``set`` must not
+                # leave the configuration half-updated
+                self.__exit__(None, None, None)
+                self._record = []
+                raise
 
     def __enter__(self):
         return self.config
